@@ -3,7 +3,7 @@
 //! attribute a mismatch to a root cause that is already listed, and to keep
 //! most histories clear of those causes by construction).
 
-use crate::proj::{Content, Damage, FileM, Names, View, edit, gen_module, gen_package, has_word};
+use crate::proj::{Content, Damage, FileM, Names, View, declared_names, edit, gen_module, gen_package, has_word};
 use serde_json::{Value, json};
 use std::collections::{BTreeMap, BTreeSet};
 use vcore::Draw;
@@ -90,6 +90,9 @@ pub struct World {
     pub disk: BTreeMap<String, String>,
     pub open: BTreeMap<String, String>,
     pub told: Told,
+    /// the server under test forgets a buffer on didClose / will*Files and
+    /// re-reads the project (executor only; generation always assumes it does not)
+    pub close_forgets: bool,
 }
 
 impl World {
@@ -105,6 +108,14 @@ impl World {
             }
             self.told.syms.insert(p.clone(), Some(t.clone()));
             self.told.docs.insert(p, t);
+        }
+    }
+
+    fn forget(&mut self, f: &str) {
+        self.told.docs.remove(f);
+        self.told.syms.insert(f.to_string(), None);
+        if matches!(&self.told.latest, Some((p, _)) if p == f) {
+            self.told.latest = None;
         }
     }
 
@@ -135,9 +146,16 @@ impl World {
             }
             Step::Close { f } => {
                 self.open.remove(f);
+                if self.close_forgets {
+                    self.forget(f);
+                    self.background_run();
+                }
             }
             Step::RenameFile { from, to } => {
                 self.told.syms.insert(from.clone(), None);
+                if self.close_forgets {
+                    self.forget(from);
+                }
                 if let Some(t) = self.disk.remove(from) {
                     self.disk.insert(to.clone(), t);
                 }
@@ -149,6 +167,9 @@ impl World {
             }
             Step::Delete { f } => {
                 self.told.syms.insert(f.clone(), None);
+                if self.close_forgets {
+                    self.forget(f);
+                }
                 self.open.remove(f);
                 self.disk.remove(f);
             }
@@ -290,7 +311,7 @@ pub fn generate(d: &mut Draw, thorough: bool) -> Hist {
     let mut nm = Names::new();
     let mut flags = Flags::default();
     // listed root causes are reachable only in a minority of histories
-    flags.allow_known = d.chance(1, 8);
+    flags.allow_known = d.chance(1, 6);
     flags.incremental = d.chance(1, 4);
     let mut g: BTreeMap<String, GFile> = BTreeMap::new();
     let models = |g: &BTreeMap<String, GFile>| -> View {
@@ -349,6 +370,7 @@ pub fn generate(d: &mut Draw, thorough: bool) -> Hist {
     let mut renames: Vec<(String, String)> = vec![];
     let n_steps = d.usize_in(5, if thorough { 24 } else { 15 });
     let mut guard = 0;
+    let mut deleted = false;
     while steps.len() < n_steps && guard < 200 {
         guard += 1;
         let open: Vec<String> = g.iter().filter(|(_, f)| f.buf.is_some()).map(|(k, _)| k.clone()).collect();
@@ -358,12 +380,21 @@ pub fn generate(d: &mut Draw, thorough: bool) -> Hist {
             0
         } else {
             d.weighted(&[
-                if closed.is_empty() { 0 } else { 4 },
-                if open.is_empty() { 0 } else { 14 },
+                if closed.is_empty() {
+                    0
+                } else if open.len() < 2 {
+                    // several documents open early: renames are then seen from open dependents
+                    16
+                } else if closed.iter().any(|f| g[f].ever_closed) {
+                    8
+                } else {
+                    4
+                },
+                if open.is_empty() { 0 } else { 20 },
                 if open.is_empty() { 0 } else { 2 },
-                if open.is_empty() { 0 } else { 3 },
+                if open.is_empty() { 0 } else { 4 },
                 2,
-                if all.len() >= 3 { 1 } else { 0 },
+                if all.len() >= 3 && !deleted { 1 } else { 0 },
                 if all.len() <= 4 { 1 } else { 0 },
             ])
         };
@@ -391,7 +422,30 @@ pub fn generate(d: &mut Draw, thorough: bool) -> Hist {
                 gops.push(GOp::Open(f));
             }
             1 => {
-                let f = d.pick(&open).clone();
+                // until the history has changed a symbol that another file mentions,
+                // prefer a document that declares such a symbol
+                let mut f = d.pick(&open).clone();
+                if !flags.xfile_change && d.chance(3, 4) {
+                    let hot_files: Vec<String> = open
+                        .iter()
+                        .filter(|f| {
+                            let mut others = String::new();
+                            for (_, gf) in g.iter().filter(|(k, _)| k != f) {
+                                others.push_str(&match &gf.buf {
+                                    Some(b) => b.text(),
+                                    None => gf.disk.text(),
+                                });
+                            }
+                            let m = &g[*f].buf.as_ref().unwrap().m;
+                            m.decls.iter().any(|x| has_word(&others, &x.name))
+                                || declared_names(m).iter().any(|n| has_word(&others, &n.1))
+                        })
+                        .cloned()
+                        .collect();
+                    if !hot_files.is_empty() {
+                        f = d.pick(&hot_files).clone();
+                    }
+                }
                 let cur = g[&f].buf.clone().unwrap();
                 let cur_text = cur.text();
                 let mut new = cur.clone();
@@ -404,8 +458,17 @@ pub fn generate(d: &mut Draw, thorough: bool) -> Hist {
                 match sub {
                     0 => {
                         let v = models(&g);
+                        let mut others = String::new();
+                        for (k, gf) in g.iter().filter(|(k, _)| **k != f) {
+                            let _ = k;
+                            others.push_str(&match &gf.buf {
+                                Some(b) => b.text(),
+                                None => gf.disk.text(),
+                            });
+                        }
+                        let hot = |n: &str| has_word(&others, n);
                         for _ in 0..4 {
-                            if let Some(info) = edit(d, &mut nm, &mut new.m, &v, &mut former, &renames) {
+                            if let Some(info) = edit(d, &mut nm, &mut new.m, &v, &mut former, &renames, &hot, !flags.xfile_change) {
                                 // cross-file effect: another file mentions a changed name
                                 for ch in &info.changed {
                                     let mut in_open = false;
@@ -479,9 +542,15 @@ pub fn generate(d: &mut Draw, thorough: bool) -> Hist {
                 gops.push(GOp::Save(f));
             }
             3 => {
-                let f = d.pick(&open).clone();
+                // histories that may reach listed root causes close documents with unsaved changes
+                let dirty_open: Vec<String> = open.iter().filter(|f| w.open.get(*f) != w.disk.get(*f)).cloned().collect();
+                let f = if flags.allow_known && !dirty_open.is_empty() {
+                    d.pick(&dirty_open).clone()
+                } else {
+                    d.pick(&open).clone()
+                };
                 let dirty = w.open.get(&f) != w.disk.get(&f);
-                if dirty && !(flags.allow_known && d.bool()) {
+                if dirty && !flags.allow_known {
                     // the user answers "save" to the editor's prompt
                     cand.push(Step::Save { f: f.clone() });
                     gops.push(GOp::Save(f.clone()));
@@ -514,6 +583,7 @@ pub fn generate(d: &mut Draw, thorough: bool) -> Hist {
             }
             5 => {
                 let f = d.pick(&all).clone();
+                deleted = true;
                 cand.push(Step::Delete { f: f.clone() });
                 gops.push(GOp::Delete(f));
             }
